@@ -245,7 +245,7 @@ func randText(r *rng, n int) []byte {
 func validMessage(r *rng, maxFrag int, text bool, big bool) []gframe {
 	nfrag := 1 + r.intn(maxFrag)
 	total := payloadClasses[r.intn(len(payloadClasses))]
-	if big && r.intn(6) == 0 {
+	if big && r.intn(25) == 0 {
 		total = 70000
 	}
 	var whole []byte
@@ -279,12 +279,20 @@ func validMessage(r *rng, maxFrag int, text bool, big bool) []gframe {
 	return fs
 }
 
-func chunkings(n int, r *rng) []int { return []int{0, 1, 2, 3, 7, 1 + r.intn(n+1)} }
+// chunkings: transport chunk sizes for a stream of n bytes. Long streams are not cut into tiny chunks: the
+// list-based Lean model is quadratic in the number of chunks, and the small-chunk behaviour is covered by
+// the thousands of short streams.
+func chunkings(n int, r *rng) []int {
+	if n > 5000 {
+		return []int{0, 997, 4096, 500 + r.intn(n)}
+	}
+	return []int{0, 1, 2, 3, 7, 1 + r.intn(n+1)}
+}
 
 func genC04(tier string, r *rng) {
 	nStreams := 250
 	if tier == "thorough" {
-		nStreams = 6000
+		nStreams = 4000
 	}
 	fins := []string{"E", "E", "Ed"}
 	for i := 0; i < nStreams; i++ {
